@@ -23,7 +23,8 @@ Print Assumptions C13_all_protected.
    and every route x every mode (router built before the NRF registration sets
    OAuth2Required, as at start-up; flag set before the router is built; flag set and
    no NRF certificate configured) x every bad-token kind (absent, garbage, alg none,
-   HS256, RS512 with a foreign key, RS256 with the right key, no Bearer prefix) was
+   HS256, RS512 with a foreign key, RS256 with the right key, no Bearer prefix, Basic
+   credentials, a foreign-key token under the scheme name Token, "Bearer" alone, one word) was
    answered 401 with no handler behind the check run (a probe during which a handler
    wrote, a subscriber context changed or a notification left is tabled as 1000+status). *)
 Theorem C13_routes_agree_and_probes_401 : violations observed = [] /\ List.length observed = 16%nat.
